@@ -70,6 +70,9 @@ def generate(seed, tier, idx=0):
             "probe": rng.random() < 0.5, "sized_model": rng.random() < 0.15}
     if rng.random() < 0.2:
         case["falsy_producer"] = True     # the data producer is an (empty) container
+    if rng.random() < 0.2:
+        prog["warmup_obs"] = [[rng.randrange(len(stats)), rng.choice([1, 2, 5, 0.5]),
+                               rng.choice([0.5, 1, 2])] for _ in range(rng.randint(1, 2))]
     if case["probe"] and rng.random() < 0.3:
         # a subscriber that changes the statistic from inside notify (batch monitor
         # resetting it, capacity guard registering a correction): what is published
